@@ -314,7 +314,7 @@ func (c *capture) ForceFlush(context.Context) error                 { return nil
 
 func main() {
 	vf.Main("C17", "exploration", func(c *vf.Ctx) {
-		c.Rule = "seeded programs of 1-12 SetAttributes/AddAttributes calls (0-14 key-values per call over a 16-key alphabet, duplicates inside and across calls, nested slices/maps 3 deep, strings around the length limit with invalid bytes and literal U+FFFD) applied to records captured during Emit (limits from the provider, Emit's one-AddAttributes-per-attribute path included) and to clones; count limit in {-1,0,1,4,5,6,128}, length limit in {-1,0,1,3,128}. distinct = distinct (count-limit class, length-limit class, paths: hit-limit/mid-call/overwrite-front/overwrite-back/clone) signatures"
+		c.Rule = "seeded programs of 1-12 SetAttributes/AddAttributes calls (0-14 key-values per call over a 16-key alphabet, duplicates inside and across calls, nested slices/maps 3 deep, strings around the length limit with invalid bytes and literal U+FFFD) applied to records captured during Emit (limits from the provider, Emit's one-AddAttributes-per-attribute path included) and to clones; count limit in {-1,0,1,4,5,6,128}, length limit in {-1,0,1,3,128}; argument slices scribbled over after the call; earlier limit options overridden by later ones. distinct = distinct (count-limit class, length-limit class, paths: hit-limit/mid-call/overwrite-front/overwrite-back/clone) signatures"
 		c.Assume = []string{"key order is not asserted (only the set of retained keys)", "when nested maps carry duplicate keys the dropped count is asserted as a range [top-level drops, top-level drops + nested removals]"}
 
 		c.Cases("programs", c.N(80_000, 1_500_000), 0, func(k *vf.Case) {
